@@ -124,3 +124,8 @@ def the_check_sees_every_protected_part_and_no_unprotected_bit(ds, frame):
         assert at == CEMIAddressType.GROUP
         assert ff == frame.flags.frame_format and tpci is frame.tpci
     assert len(ghost("checked")) <= 1
+
+
+ASSUMPTIONS = [
+    "ideal-cipher model of AES-CBC-MAC / AES-CTR (contracts/crypto_model.py): no MAC collisions (also not on 32 transmitted bits), CTR decryption inverse to encryption under the same key and counter block and unrelated otherwise; 2^-32 / 2^-128 events treated as impossible",
+]
